@@ -107,10 +107,12 @@ theorem C12_ip_host_is_path_style (cfg : HostCfg) (h p : Bytes) (hs : headerToSt
 /-! ## multi-domain configurations -/
 
 /-- `MultiDomain::new` accepts exactly the non-empty lists of valid domains no two of which
-    overlap (one `ends_with` the other, as the code defines it), and keeps the list as given -/
+    overlap — one `ends_with` the other once both are ASCII-lower-cased, as the code tests it and
+    as hosts are resolved — and keeps the list as given -/
 theorem C12_multidomain_new_iff (ds : List Bytes) :
     (∃ v, multiNew ds = .ok v) ↔
-      ds ≠ [] ∧ (∀ d ∈ ds, isValidDomain d = true) ∧ ds.Pairwise (fun a b => ¬ Overlap a b) := by
+      ds ≠ [] ∧ (∀ d ∈ ds, isValidDomain d = true) ∧
+        ds.Pairwise (fun a b => ¬ (toAsciiLower a <:+ toAsciiLower b ∨ toAsciiLower b <:+ toAsciiLower a)) := by
   constructor
   · rintro ⟨v, hv⟩
     exact ((multiNew_ok ds v).mp hv).2
@@ -118,54 +120,41 @@ theorem C12_multidomain_new_iff (ds : List Bytes) :
     exact ⟨ds, (multiNew_ok ds ds).mpr ⟨rfl, h⟩⟩
 
 /-- in particular a configuration that lists a domain twice, or a domain together with one of its
-    sub-domains (`x.d` with `d`), in either order, is refused -/
+    sub-domains (`x.d` with `d`), in either order and whatever the ASCII case either is written in
+    (`x.COM` with `com`), is refused -/
 theorem C12_multidomain_refuses_subdomains (ds : List Bytes) (d1 d2 : Bytes)
     (hsub : [d1, d2].Sublist ds)
-    (hov : d1 = d2 ∨ (46 :: d2) <:+ d1 ∨ (46 :: d1) <:+ d2) : ∀ v, multiNew ds ≠ .ok v := by
+    (hov : toAsciiLower d1 = toAsciiLower d2 ∨ (46 :: toAsciiLower d2) <:+ toAsciiLower d1 ∨
+      (46 :: toAsciiLower d1) <:+ toAsciiLower d2) : ∀ v, multiNew ds ≠ .ok v := by
   intro v hv
   obtain ⟨_, _, _, hp⟩ := (multiNew_ok ds v).mp hv
   have h2 := hp.sublist hsub
   rw [List.pairwise_cons] at h2
   apply h2.1 d2 (by simp)
-  rcases hov with rfl | h | h
-  · exact Or.inl (List.suffix_refl _)
-  · exact Or.inr ((List.suffix_cons 46 d2).trans h)
-  · exact Or.inl ((List.suffix_cons 46 d1).trans h)
+  rcases hov with h | h | h
+  · exact Or.inl (h ▸ List.suffix_refl _)
+  · exact Or.inr ((List.suffix_cons 46 _).trans h)
+  · exact Or.inl ((List.suffix_cons 46 _).trans h)
 
 /-- … and what it stores is the list it was given -/
 theorem C12_multidomain_new_keeps (ds v : List Bytes) (h : multiNew ds = .ok v) : v = ds :=
   ((multiNew_ok ds v).mp h).1
 
-/-- FULL statement (false of the current code, see `S3V/Findings/C12.lean`): in an accepted
-    configuration a host belongs to at most one base domain. Hosts are matched without regard to
-    ASCII case, but `MultiDomain::new` tests overlap case-sensitively. -/
-def C12_multidomain_unique_match_full : Prop :=
-  ∀ (ds v : List Bytes), multiNew ds = .ok v →
-    ∀ (d1 d2 host : Bytes) (v1 v2 : VirtualHost), d1 ∈ v → d2 ∈ v →
-      parseHostHeader d1 host = some v1 → parseHostHeader d2 host = some v2 → d1 = d2
-
-/-- PARTIAL: it holds for configurations written in lower case (excluded region: some configured
-    domain contains an upper-case ASCII letter, `∃ d ∈ v, toAsciiLower d ≠ d`) -/
-theorem C12_multidomain_unique_match_partial (ds v : List Bytes) (h : multiNew ds = .ok v)
-    (hl : ∀ d ∈ v, toAsciiLower d = d)
+/-- in an accepted configuration a host belongs to at most one base domain, whatever ASCII case
+    the domains and the host are written in (hosts are matched without regard to ASCII case, and
+    `MultiDomain::new` tests overlap without regard to it) -/
+theorem C12_multidomain_unique_match (ds v : List Bytes) (h : multiNew ds = .ok v)
     (d1 d2 host : Bytes) (v1 v2 : VirtualHost) (m1 : d1 ∈ v) (m2 : d2 ∈ v)
-    (h1 : parseHostHeader d1 host = some v1) (h2 : parseHostHeader d2 host = some v2) : d1 = d2 := by
-  obtain ⟨rfl, _, _, hp⟩ := (multiNew_ok ds v).mp h
-  exact unique_match (pairwiseCI_of_lower hl hp) m1 m2 h1 h2
+    (h1 : parseHostHeader d1 host = some v1) (h2 : parseHostHeader d2 host = some v2) : d1 = d2 :=
+  unique_match (pairwiseCI_of_accepted h) m1 m2 h1 h2
 
-/-- FULL statement (false of the current code): the answer does not depend on the order in which
-    the domains were configured -/
-def C12_multidomain_order_independent_full : Prop :=
-  ∀ (ds ds' v : List Bytes), multiNew ds = .ok v → ds'.Perm ds → ∀ host : Bytes,
-    multiNew ds' = .ok ds' ∧ multiParse ds' host = multiParse v host
-
-/-- PARTIAL: it holds for configurations written in lower case -/
-theorem C12_multidomain_order_independent_partial (ds ds' v : List Bytes) (h : multiNew ds = .ok v)
-    (hl : ∀ d ∈ v, toAsciiLower d = d) (hperm : ds'.Perm ds) (host : Bytes) :
+/-- the answer does not depend on the order in which the domains were configured: every
+    reordering of an accepted configuration is accepted and resolves every host alike -/
+theorem C12_multidomain_order_independent (ds ds' v : List Bytes) (h : multiNew ds = .ok v)
+    (hperm : ds'.Perm ds) (host : Bytes) :
     multiNew ds' = .ok ds' ∧ multiParse ds' host = multiParse v host := by
   obtain ⟨rfl, hne, hval, hp⟩ := (multiNew_ok ds v).mp h
-  refine ⟨(multiNew_ok ds' ds').mpr ⟨rfl, ?_, ?_, ?_⟩,
-    multiParse_perm (pairwiseCI_of_lower hl hp) hperm host⟩
+  refine ⟨(multiNew_ok ds' ds').mpr ⟨rfl, ?_, ?_, ?_⟩, multiParse_perm hp hperm host⟩
   · intro e; rw [e] at hperm; exact hne (List.Perm.eq_nil hperm.symm)
   · intro d hd; exact hval d (hperm.subset hd)
   · exact (hperm.pairwise_iff (fun h hba => h hba.symm)).mpr hp
@@ -195,8 +184,8 @@ theorem C12_host_resolution_sound (d host : Bytes) (vh : VirtualHost)
     · injection h with h; rw [← h]
     · cases h
 
-/-- through the configured parsers: under a single domain, and under an accepted multi-domain
-    list without case-insensitive overlaps, `b.t` resolves to bucket `b` of domain `d` -/
+/-- through the configured parsers: under a single domain, and under every accepted multi-domain
+    list, `b.t` resolves to bucket `b` of domain `d` -/
 theorem C12_host_resolution_configured (cfg : HostCfg) (d b t : Bytes) (hc : ConfiguredDomain cfg d)
     (ht : toAsciiLower t = toAsciiLower d) (hb : ∀ c ∈ t.head?, c.toNat < 128 ∨ 192 ≤ c.toNat) :
     ∃ parse, cfg.parser = some parse ∧ parse (b ++ dot :: t) = some ⟨d, some b⟩ :=
@@ -244,7 +233,7 @@ example : Spelling exSpelling (slash :: exKey) :=
     (.enc (x := 10) (y := 9) (by decide) (by decide) (by decide) .nil))))))
 example : ConfiguredDomain (.single exDomain) exDomain := Or.inl rfl
 example : ConfiguredDomain (.multi [exDomain2, exDomain]) exDomain :=
-  Or.inr ⟨_, rfl, pairwiseCI_of_lower (by decide) ((multiNew_ok _ _).mp rfl).2.2.2, by decide, rfl⟩
+  Or.inr ⟨_, rfl, by decide, rfl⟩
 /-- `S3.Example.COM` is `s3.example.com` up to ASCII case -/
 example : toAsciiLower [83, 51, 46, 69, 120, 97, 109, 112, 108, 101, 46, 67, 79, 77] = toAsciiLower exDomain := by
   decide
@@ -258,7 +247,17 @@ example : PathStyleChosen (.single exDomain) (some [49, 50, 55, 46, 48, 46, 48, 
   Or.inr ⟨_, rfl, by decide, Or.inr (by decide)⟩
 example : ∃ v, multiNew [exDomain2, exDomain] = .ok v := ⟨_, rfl⟩
 example : multiNew [exDomain, exDomain2 ++ dot :: exDomain] = .error .overlappingSubdomains := rfl
-/-- kept side of the partial statements: a configuration written in lower case -/
-example : ∀ d ∈ [exDomain2, exDomain], toAsciiLower d = d := by decide
+/-- `S3.Example.COM` -/
+def exMixedCase : Bytes := [83, 51, 46, 69, 120, 97, 109, 112, 108, 101, 46, 67, 79, 77]
+/-- `example.com` -/
+def exPlainCom : Bytes := [101, 120, 97, 109, 112, 108, 101, 46, 99, 111, 109]
+/-- an accepted configuration written in mixed case (hypothesis of `C12_multidomain_unique_match`
+    and `C12_multidomain_order_independent`): `S3.Example.COM` with `example.org` -/
+example : multiNew [exMixedCase, exDomain2] = .ok [exMixedCase, exDomain2] := rfl
+/-- `S3.Example.COM` is a sub-domain of `example.com` up to ASCII case (hypothesis of
+    `C12_multidomain_refuses_subdomains`), and the pair is refused in either order -/
+example : (46 :: toAsciiLower exPlainCom) <:+ toAsciiLower exMixedCase := by decide
+example : multiNew [exMixedCase, exPlainCom] = .error .overlappingSubdomains := rfl
+example : multiNew [exPlainCom, exMixedCase] = .error .overlappingSubdomains := rfl
 
 end S3V.C12
